@@ -72,11 +72,15 @@
                               = exactly the other entries, each once
 
    PARTLY / NOT COVERED BY A THEOREM (left to the correspondence check)
-   * into_keys / into_values / Set::into_iter / Set::drain are the same model
-     functions plus a projection (and dropping the unused half, see
-     Exec.into_steps_item); that projection is checked by the harness only.
-   * "fully reusable": stated as WF /\ len = 0 /\ same capacity; every
-     operation's theorems (C01..) need only WF, so they apply afterwards.
+   * (Corrected after the audit.)  into_keys / into_values / Set::into_iter,
+     the destruction of the half that is not handed out, "fully reusable" as
+     refinement of the EMPTY dictionary, and the no-panic forms of the drain
+     theorems are now theorems: AUDIT CLOSURE section at the end of this file
+     (C10_into_keys_run_spec, C10_into_values_run_spec, C10_set_into_run_spec,
+     C10_drain_session_Abs, C10_drain_then_run_refines, C10_drain_run_nopanic ...).
+     C10_drain_run_spec / C10_drain_forgotten above keep a panic clause
+     `self w' = self w` that can never fire (C10_drain_run_nopanic).
+   * Set::drain is Map::drain on Map<T,(),N> (same model function, V := unit).
    * Dropping a partly consumed IntoIter destroys the remaining prefix through
      drop_map (Owned.drop_map_acct, C02), not restated here.
    * "every reachable container state" enters as WF (self w).
@@ -327,6 +331,351 @@ Example C10_example_rest :
   end /\
   match into_run 2 (w_of m3) with
   | Ok r w' => Exec.elems (self w') = [(k_ 1 5, v_ 2 7)]
+  | _ => False
+  end.
+Proof. vm_compute. split; reflexivity. Qed.
+
+(* ======================================================================== *)
+(* AUDIT CLOSURE for C10 (Proofs/MoreIter.v)
+
+   The audit found: (9) into_keys / into_values and the Set equivalents had
+   their projection only in the interpreter, and the destruction of the unused
+   half was unproved; (10) "fully reusable" was only WF /\ len = 0; (11)
+   C10_drain_run_spec / C10_drain_forgotten carried a panic clause although a
+   drain cannot panic before its Drop runs; (12) DrainInv had no example.
+
+   VOCABULARY
+     into_keys_next E / into_values_next E   (Proofs/Owned2.v) IntoKeys::next =
+                        self.iter.next().map(|p| p.0): pop the last entry, destroy
+                        its VALUE, yield its key; IntoValues::next destroys the
+                        KEY and yields the value.  Exec.into_steps_item kind 1 / 2
+                        is exactly this (C10_into_steps_keys_next / _values_next).
+     into_keys_run E n / into_values_run E n   call that next() up to n times,
+                        stop at the first None (Proofs/MoreIter.v proj_run).
+     into_proj_run proj n   the same for a projection that destroys nothing:
+                        proj = fst with V = unit is Set::into_iter
+                        (Exec.set_into_steps), proj = id is IntoIter.
+     dropsV E p = ev_drops (idV E (snd p)), dropsK E p = ev_drops (idK E (fst p)):
+                        the Drop events of the value / key of entry p.
+     Set::drain IS Map::drain on Map<T,(),N>: every drain theorem of this file
+     with V := unit is the Set statement (the interpreter runs the same
+     Exec.drain_session for both).
+   E is ANY environment in C10_into_keys_run_spec / C10_into_values_run_spec /
+   C10_drain_session_Abs (a Drop may panic: the panic clause says what had been
+   destroyed by then); Lawful E ck cq is needed only for the histories that
+   FOLLOW the drain in C10_drain_then_run_refines (they call ==).
+
+   READING GUIDE (clause -> theorem)
+   * "into_keys, into_values ... yield exactly the entries the container held,
+     each once, with exact len()":
+       C10_into_keys_run_spec    n steps yield  map fst  of the first n entries of
+                                 the reversed content; the log grows by exactly the
+                                 Drop events of THOSE entries' values, in order,
+                                 each once; what is left is the prefix of length
+                                 len - min n len (its len()).  If the Drop of a
+                                 value panics at step t: entries 0..t were popped,
+                                 exactly their values were destroyed.
+       C10_into_values_run_spec  symmetric: map snd, the KEYS are destroyed
+       C10_set_into_run_spec     Set::into_iter: map fst of the entries (k, ()),
+                                 nothing destroyed, no panic
+       C10_into_steps_item_kinds, C10_into_steps_keys_next,
+       C10_into_steps_values_next, C10_into_steps_pairs_next
+                                 the interpreter's step for kinds 1, 2, 0 is
+                                 into_keys_next, into_values_next, into_iter_next
+   * "After drain() the container is empty and fully reusable no matter how much
+     of the drain was consumed before it was dropped":
+       C10_drain_session_Abs     every environment, every number taken, normal
+                                 return or a panicking Drop: the container
+                                 abstracts to the EMPTY dictionary, same capacity
+       C10_drain_forgotten_Abs   mem::forget(drain): the same, and no panic
+       C10_drain_then_run_refines, C10_drain_forgotten_then_run_refines
+                                 hence every later history of the 13 dictionary
+                                 operations returns exactly what the ideal
+                                 dictionary started EMPTY returns (Dict.run_refines),
+                                 i.e. exactly what the same history returns on a
+                                 fresh Map::new() of that capacity
+       C10_drain_first_run2_refines  the same inside the mixed histories of C01
+                                 (Dict2: drain, iteration, entry, extend
+                                 interleaved): after DDrain take the run continues
+                                 from the empty dictionary
+   * no panic before Drop:
+       C10_drain_run_nopanic, C10_drain_forgotten_nopanic
+                                 C10_drain_run_spec / C10_drain_forgotten with
+                                 panic postcondition False
+   ======================================================================== *)
+Require Import Proofs.MoreIter Proofs.Lawful Proofs.Dict Proofs.Dict2 Proofs.Owned2 Proofs.FmtSerde.
+
+Theorem C10_into_keys_run_spec :
+  forall (K V Q T : Type) (E : env K V Q T) (n : nat) (w : world K V T),
+    WF (self w) ->
+    wp (into_keys_run E n)
+       (fun (r : list K) (w' : world K V T) =>
+          let took := firstn n (rev (Spec.elems (self w))) in
+          r = List.map fst took /\
+          log w' = log w ++ flat_map (dropsV E) took /\
+          WF (self w') /\ cap (self w') = cap (self w) /\
+          len (self w') = len (self w) - Nat.min n (len (self w)) /\
+          Spec.elems (self w') =
+            firstn (len (self w) - Nat.min n (len (self w))) (Spec.elems (self w)))
+       (fun w' : world K V T =>
+          exists t : nat, t < Nat.min n (len (self w)) /\
+            let took := firstn (S t) (rev (Spec.elems (self w))) in
+            log w' = log w ++ flat_map (dropsV E) took /\
+            WF (self w') /\ cap (self w') = cap (self w) /\
+            len (self w') = len (self w) - S t /\
+            Spec.elems (self w') = firstn (len (self w) - S t) (Spec.elems (self w)))
+       w.
+Proof. exact (@into_keys_run_spec). Qed.
+Print Assumptions C10_into_keys_run_spec.
+
+Theorem C10_into_values_run_spec :
+  forall (K V Q T : Type) (E : env K V Q T) (n : nat) (w : world K V T),
+    WF (self w) ->
+    wp (into_values_run E n)
+       (fun (r : list V) (w' : world K V T) =>
+          let took := firstn n (rev (Spec.elems (self w))) in
+          r = List.map snd took /\
+          log w' = log w ++ flat_map (dropsK E) took /\
+          WF (self w') /\ cap (self w') = cap (self w) /\
+          len (self w') = len (self w) - Nat.min n (len (self w)) /\
+          Spec.elems (self w') =
+            firstn (len (self w) - Nat.min n (len (self w))) (Spec.elems (self w)))
+       (fun w' : world K V T =>
+          exists t : nat, t < Nat.min n (len (self w)) /\
+            let took := firstn (S t) (rev (Spec.elems (self w))) in
+            log w' = log w ++ flat_map (dropsK E) took /\
+            WF (self w') /\ cap (self w') = cap (self w) /\
+            len (self w') = len (self w) - S t /\
+            Spec.elems (self w') = firstn (len (self w) - S t) (Spec.elems (self w)))
+       w.
+Proof. exact (@into_values_run_spec). Qed.
+Print Assumptions C10_into_values_run_spec.
+
+(* a projection that destroys nothing (any result type A) *)
+Theorem C10_into_proj_run_spec :
+  forall (K V T A : Type) (proj : K * V -> A) (n : nat) (w : world K V T),
+    WF (self w) ->
+    wp (into_proj_run proj n)
+       (fun (r : list A) (w' : world K V T) =>
+          r = List.map proj (firstn n (rev (Spec.elems (self w)))) /\
+          log w' = log w /\
+          WF (self w') /\ cap (self w') = cap (self w) /\
+          len (self w') = len (self w) - Nat.min n (len (self w)) /\
+          Spec.elems (self w') =
+            firstn (len (self w) - Nat.min n (len (self w))) (Spec.elems (self w)))
+       (fun _ : world K V T => False) w.
+Proof. exact (@into_proj_run_spec). Qed.
+Print Assumptions C10_into_proj_run_spec.
+
+(* Set::into_iter: V = unit, the item is the key *)
+Theorem C10_set_into_run_spec :
+  forall (K T : Type) (n : nat) (w : world K unit T),
+    WF (self w) ->
+    wp (into_proj_run (fun p : K * unit => fst p) n)
+       (fun (r : list K) (w' : world K unit T) =>
+          r = List.map (fun p : K * unit => fst p) (firstn n (rev (Spec.elems (self w)))) /\
+          log w' = log w /\
+          WF (self w') /\ cap (self w') = cap (self w) /\
+          len (self w') = len (self w) - Nat.min n (len (self w)) /\
+          Spec.elems (self w') =
+            firstn (len (self w) - Nat.min n (len (self w))) (Spec.elems (self w)))
+       (fun _ : world K unit T => False) w.
+Proof. exact (fun K T => @into_proj_run_spec K unit T K (fun p : K * unit => fst p)). Qed.
+Print Assumptions C10_set_into_run_spec.
+
+(* the interpreter uses exactly these next() functions *)
+Theorem C10_into_steps_item_kinds :
+  forall (sc : script) (p : key * vobj),
+    into_steps_item sc 0 p = ret (r_pair p) /\
+    into_steps_item sc 1 p = (drop_val (env_map sc) (snd p) ;; ret (r_key (fst p))) /\
+    into_steps_item sc 2 p = (drop_key (env_map sc) (fst p) ;; ret (r_val (snd p))).
+Proof. exact into_steps_item_kinds. Qed.
+Print Assumptions C10_into_steps_item_kinds.
+
+Theorem C10_into_steps_keys_next :
+  forall (sc : script) (w : world key vobj cstate),
+    (o <- into_iter_next ;;
+     match o with None => ret None | Some p => it <- into_steps_item sc 1 p ;; ret (Some it) end) w
+    = (o <- into_keys_next (env_map sc) ;; ret (option_map r_key o)) w.
+Proof. exact into_steps_keys_next. Qed.
+Print Assumptions C10_into_steps_keys_next.
+
+Theorem C10_into_steps_values_next :
+  forall (sc : script) (w : world key vobj cstate),
+    (o <- into_iter_next ;;
+     match o with None => ret None | Some p => it <- into_steps_item sc 2 p ;; ret (Some it) end) w
+    = (o <- into_values_next (env_map sc) ;; ret (option_map r_val o)) w.
+Proof. exact into_steps_values_next. Qed.
+Print Assumptions C10_into_steps_values_next.
+
+Theorem C10_into_steps_pairs_next :
+  forall (sc : script) (w : world key vobj cstate),
+    (o <- into_iter_next ;;
+     match o with None => ret None | Some p => it <- into_steps_item sc 0 p ;; ret (Some it) end) w
+    = (into_proj_next r_pair) w.
+Proof. exact into_steps_pairs_next. Qed.
+Print Assumptions C10_into_steps_pairs_next.
+
+(* ---- drain: no panic before Drop ---- *)
+Theorem C10_drain_run_nopanic :
+  forall (K V T : Type) (n : nat) (w : world K V T),
+    WF (self w) ->
+    wp (c <- drain ;; drain_run n c)
+       (fun (r : list (K * V) * cursor) (w' : world K V T) =>
+          fst r = firstn n (Spec.elems (self w)) /\
+          snd r = (Nat.min n (len (self w)), len (self w)) /\
+          DrainInv (snd r) (self w') /\
+          cap (self w') = cap (self w) /\ log w' = log w /\ len (self w') = 0)
+       (fun _ : world K V T => False) w.
+Proof. exact (@drain_run_nopanic). Qed.
+Print Assumptions C10_drain_run_nopanic.
+
+Theorem C10_drain_forgotten_nopanic :
+  forall (K V T : Type) (n : nat) (w : world K V T),
+    WF (self w) ->
+    wp (c <- drain ;; drain_run n c)
+       (fun (_ : list (K * V) * cursor) (w' : world K V T) =>
+          WF (self w') /\ len (self w') = 0 /\ cap (self w') = cap (self w))
+       (fun _ : world K V T => False) w.
+Proof. exact (@drain_forgotten_nopanic). Qed.
+Print Assumptions C10_drain_forgotten_nopanic.
+
+(* ---- drain: the container is the empty dictionary afterwards ---- *)
+(* Abs ck m d := WF m /\ Uniq ck (elems m) /\ Permutation (elems m) d  (Proofs/Dict.v) *)
+Theorem C10_drain_session_Abs :
+  forall (K V Q T : Type) (E : env K V Q T) (ck : K -> N) (n : nat) (w : world K V T),
+    WF (self w) ->
+    let post := fun w' : world K V T => Abs ck (self w') [] /\ cap (self w') = cap (self w) in
+    wp (c <- drain ;; r <- drain_run n c ;; drain_drop E (snd r)) (fun _ : unit => post) post w.
+Proof. exact (@drain_session_Abs). Qed.
+Print Assumptions C10_drain_session_Abs.
+
+Theorem C10_drain_forgotten_Abs :
+  forall (K V T : Type) (ck : K -> N) (n : nat) (w : world K V T),
+    WF (self w) ->
+    wp (c <- drain ;; drain_run n c)
+       (fun (_ : list (K * V) * cursor) (w' : world K V T) =>
+          Abs ck (self w') [] /\ cap (self w') = cap (self w))
+       (fun _ : world K V T => False) w.
+Proof. exact (@drain_forgotten_Abs). Qed.
+Print Assumptions C10_drain_forgotten_Abs.
+
+(* mrun E debug ops w: the results of running the dictionary operations ops from
+   world w; drun ck cq n ops d: the results of the ideal dictionary of capacity n
+   started in state d (Proofs/Dict.v, C01) *)
+Theorem C10_drain_then_run_refines :
+  forall (K V Q T : Type) (E : env K V Q T) (debug : bool) (ck : K -> N) (cq : Q -> N),
+    Lawful E ck cq ->
+    forall (take : nat) (ops : list (@dop K V Q)) (w : world K V T),
+    WF (self w) ->
+    match (c <- drain ;; r <- drain_run take c ;; drain_drop E (snd r)) w with
+    | Ok _ w' | Panic w' =>
+        cap (self w') = cap (self w) /\
+        mrun E debug ops w' = drun ck cq (cap (self w)) ops [] /\
+        (forall (s : T) (lg : list event),
+           mrun E debug ops w' =
+           mrun E debug ops {| cb := s; log := lg; self := new_map (cap (self w)) |})
+    | UB => False
+    end.
+Proof. exact (@drain_then_run_refines). Qed.
+Print Assumptions C10_drain_then_run_refines.
+
+Theorem C10_drain_forgotten_then_run_refines :
+  forall (K V Q T : Type) (E : env K V Q T) (debug : bool) (ck : K -> N) (cq : Q -> N),
+    Lawful E ck cq ->
+    forall (take : nat) (ops : list (@dop K V Q)) (w : world K V T),
+    WF (self w) ->
+    match (c <- drain ;; drain_run take c) w with
+    | Ok _ w' =>
+        cap (self w') = cap (self w) /\
+        mrun E debug ops w' = drun ck cq (cap (self w)) ops [] /\
+        (forall (s : T) (lg : list event),
+           mrun E debug ops w' =
+           mrun E debug ops {| cb := s; log := lg; self := new_map (cap (self w)) |})
+    | _ => False
+    end.
+Proof. exact (@drain_forgotten_then_run_refines). Qed.
+Print Assumptions C10_drain_forgotten_then_run_refines.
+
+(* Dict2 (C01): histories mixing the dictionary operations with drain, whole
+   iteration, entry and extend.  A history that starts with DDrain take: a final
+   world exists (no UB), the drain returned the first `take` items of some
+   ordering p of the dictionary, and the results rs of the REST of the history
+   are results of a run of the ideal dictionary started EMPTY *)
+Theorem C10_drain_first_run2_refines :
+  forall (K V Q T : Type) (E : env K V Q T) (debug : bool) (ck : K -> N) (cq : Q -> N),
+    Lawful E ck cq ->
+    forall (n take : nat) (ops : list (@dop2 K V Q)) (w : world K V T) (d : @dict K V),
+    Abs ck (self w) d -> cap (self w) = n ->
+    exists (wf : world K V T) (df : @dict K V) (p : list (K * V)) (rs : list (@dres2 K V)),
+      mfinal2 E debug (DDrain take :: ops) w = Some wf /\
+      Permutation p d /\
+      mrun2 E debug (DDrain take :: ops) w = RItems (firstn take p) :: rs /\
+      druns2 ck cq n ops [] rs df /\
+      Abs ck (self wf) df /\ cap (self wf) = n.
+Proof. exact (@drain_first_run2_refines). Qed.
+Print Assumptions C10_drain_first_run2_refines.
+
+(* ---------------------------------------------------------------------- *)
+(* non-vacuity                                                              *)
+(* ---------------------------------------------------------------------- *)
+
+(* DrainInv, directly: after drain() and one next() over m3 the cursor is (1,3),
+   the container has len 0, capacity 3 >= 3, and slots 1 and 2 are live *)
+Example C10_example_DrainInv :
+  match (c <- drain ;; drain_run 1 c) (w_of m3) with
+  | Ok r w' => snd r = (1, 3) /\ DrainInv (snd r) (self w')
+  | _ => False
+  end.
+Proof.
+  vm_compute. split; [reflexivity|]. split; [reflexivity|]. split; [repeat constructor|].
+  intros j [H1 H2]. destruct j as [|[|[|j]]].
+  - exfalso. inversion H1.
+  - eexists; reflexivity.
+  - eexists; reflexivity.
+  - exfalso. do 3 apply le_S_n in H2. inversion H2.
+Qed.
+
+(* into_keys over m3, two steps, nothing faults: keys of entries 2, 1; exactly
+   the values 6 and 4 are destroyed, in that order; entry 0 is left.
+   into_values: values of entries 2, 1; keys 5 and 3 destroyed.
+   With a Drop that panics on object 4 (the value of entry 1): the panic comes at
+   step t = 1, values 6 and 4 were destroyed, entry 0 is left. *)
+Example C10_example_into_keys_values :
+  match into_keys_run (env_map (sc_drop 0)) 2 (w_of m3) with
+  | Ok r w' => r = [k_ 5 7; k_ 3 6] /\ log w' = [EvDrop 6; EvDrop 4] /\
+               Spec.elems (self w') = [(k_ 1 5, v_ 2 7)]
+  | _ => False
+  end /\
+  match into_values_run (env_map (sc_drop 0)) 2 (w_of m3) with
+  | Ok r w' => r = [v_ 6 9; v_ 4 8] /\ log w' = [EvDrop 5; EvDrop 3] /\
+               Spec.elems (self w') = [(k_ 1 5, v_ 2 7)]
+  | _ => False
+  end /\
+  match into_keys_run (env_map (sc_drop 4)) 3 (w_of m3) with
+  | Panic w' => log w' = [EvDrop 6; EvDrop 4] /\ Spec.elems (self w') = [(k_ 1 5, v_ 2 7)]
+  | _ => False
+  end.
+Proof. vm_compute. repeat split; reflexivity. Qed.
+
+(* reuse after a partly consumed drain: a lawful environment exists, and on m3
+   (drain, take 1, drop) followed by insert / get / contains gives exactly what
+   the same operations give on a fresh Map of capacity 3 *)
+Definition C10_sc0 : script := {| sc_adv := false; sc_seed := 0; sc_fk := 0; sc_fa := 0 |}.
+
+Example C10_example_lawful : Lawful (env_map C10_sc0) kcls qcls.
+Proof. exact (env_map_lawful C10_sc0 (conj eq_refl eq_refl)). Qed.
+
+Example C10_example_reuse :
+  let ops := [DInsert (k_ 11 5) (v_ 12 1); DInsert (k_ 13 6) (v_ 14 2);
+              DGet (QCls 5); DContains (QCls 7); DInsert (k_ 15 7) (v_ 16 3);
+              DInsert (k_ 17 8) (v_ 18 4)] in
+  match (c <- drain ;; r <- drain_run 1 c ;; drain_drop (env_map C10_sc0) (snd r)) (w_of m3) with
+  | Ok _ w' =>
+      mrun (env_map C10_sc0) false ops w'
+      = mrun (env_map C10_sc0) false ops {| cb := cs0; log := []; self := new_map 3 |} /\
+      mrun (env_map C10_sc0) false ops w'
+      = [RNone; RNone; RVal (v_ 12 1); RBool false; RNone; RPanic]
   | _ => False
   end.
 Proof. vm_compute. split; reflexivity. Qed.
